@@ -2203,6 +2203,54 @@ RULES["tupassign"] = rule_tupassign
 RULE_ORDER[RULE_ORDER.index("R20"):RULE_ORDER.index("R20")] = ["tupassign"]
 
 
+def rule_tupassignx(toks, fired):
+    """tupassignx (unit nonsym_cones):  (B1[K1], .., Bk[Kk]) = (E1, .., Ek);   ->   B1[K1] = E1; .. Bk[Kk] = Ek;
+    The same rewrite as `tupassign`, for assigned places of the form IDENT[INTEGER LITERAL] (`(z[0], z[1], z[2]) = (s[0], s[1], s[2])`).
+    Rust evaluates the right-hand tuple first and then assigns left to right; interleaving is the same computation whenever no
+    assigned base identifier occurs on the right-hand side (then no Ei can observe an earlier assignment) and the index expressions are
+    literals (nothing to evaluate).  A panicking index (slice too short) panics in both forms; the contracts exclude it.  Anything else
+    (other place expressions, a base on the right-hand side, arity mismatch) is an ExtractError, never a silent change."""
+    i = 0
+    while i < len(toks):
+        t = toks[i]
+        if t.kind == "punct" and t.text == "(" and not t.syn:
+            pv = prev_code(toks, i - 1)
+            if pv >= 0 and toks[pv].kind == "punct" and toks[pv].text in (";", "{", "}"):
+                pe = match_close(toks, i)
+                eq = next_code(toks, pe + 1)
+                rp = next_code(toks, eq + 1) if eq < len(toks) else len(toks)
+                if eq < len(toks) and toks[eq].text == "=" and rp < len(toks) and toks[rp].text == "(":
+                    re_ = match_close(toks, rp)
+                    semi = next_code(toks, re_ + 1)
+                    lhs = split_top_commas(toks, i + 1, pe)
+                    rhs = split_top_commas(toks, rp + 1, re_)
+                    if semi < len(toks) and toks[semi].text == ";" and len(lhs) >= 2:
+                        bases, places = [], []
+                        for (a, b) in lhs:
+                            code = [x for x in toks[a:b] if x.kind not in ("ws", "comment")]
+                            if not (len(code) == 4 and code[0].kind == "ident" and code[1].text == "[" and code[3].text == "]"
+                                    and re.fullmatch(r"[0-9][0-9_]*", code[2].text)):
+                                raise ExtractError("tupassignx: left-hand side is not a tuple of IDENT[LITERAL] places")
+                            bases.append(code[0].text)
+                            places.append(code)
+                        if len(rhs) != len(lhs):
+                            raise ExtractError("tupassignx: arity mismatch")
+                        if any(x.kind == "ident" and x.text in bases for x in toks[rp:re_ + 1]):
+                            raise ExtractError("tupassignx: an assigned base occurs on the right-hand side")
+                        out = []
+                        for code, (a, b) in zip(places, rhs):
+                            out += [Tok(c.kind, c.text, c.pos, c.syn) for c in code] + synth(" = ") + _strip_ws(toks[a:b]) + synth("; ")
+                        toks = toks[:i] + out + toks[semi + 1:]
+                        fired["tupassignx"] = fired.get("tupassignx", 0) + 1
+                        continue
+        i += 1
+    return toks
+
+
+RULES["tupassignx"] = rule_tupassignx
+RULE_ORDER[RULE_ORDER.index("R20"):RULE_ORDER.index("R20")] = ["tupassignx"]
+
+
 # ---- rules added for unit info_print (additive): output as a ghost sequence of items ----
 def _wfmt_placeholders(lit):
     """(number of positional placeholders, [implicitly captured names in order of first appearance]) of a format-string literal.
@@ -2264,7 +2312,14 @@ def _wfmt_args(toks, parts, lit):
             raise ExtractError("wfmt: explicit named format argument (`name = expr`) is not handled")
         if not first:
             out += synth(", ")
-        out += synth("fa(&") + arg + synth(")")
+        # `&` binds tighter than a binary operator: an argument that is not a postfix expression (path, field, call, index) is parenthesised
+        depth, simple = 0, True
+        for x in code:
+            if x.kind == "punct" and x.text in OPEN: depth += 1
+            elif x.kind == "punct" and x.text in CLOSE: depth -= 1
+            elif depth == 0 and not (x.kind in ("ident", "num", "str") or (x.kind == "punct" and x.text in (".", "::"))):
+                simple = False
+        out += (synth("fa(&") + arg + synth(")")) if simple else (synth("fa(&(") + arg + synth("))"))
         first = False
     for nm in names:
         if not first:
@@ -2294,7 +2349,8 @@ def rule_wfmt(toks, fired):
     values, newline flag) to the ghost history of OUT when it returns Ok.  Formatting itself could only matter to program state
     through a `Display` / `Debug` impl with side effects; the argument types that occur are usize, u32, &usize, &str, String, the
     float T (Display / LowerExp of f64 / f32), f64 (Debug), std::time::Duration (Debug) and SolverStatus (the crate's Display impl
-    is a `match` returning string literals): none has one.  `format!` is the same with a fresh String as target; the unit's
+    forwards to the derived Debug: the variant name): none has one.  An argument that is not a postfix expression is parenthesised
+    (`fa(&(a + 1))`), since `&` binds tighter than a binary operator.  `format!` is the same with a fresh String as target; the unit's
     `fmt_str` returns a string whose text is an uninterpreted function of (FMT, argument values).
     `expformat!(FMT, V)` is `if V.is_finite() { _exp_str_reformat(format!(FMT, V)) } else { format!(FMT, V) }`: both branches
     format the same value with the same format string, `_exp_str_reformat` only normalises the exponent (sign, two digits).  The
@@ -2418,6 +2474,219 @@ RULES["strslice"] = rule_strslice
 RULE_ORDER[RULE_ORDER.index("R20"):RULE_ORDER.index("R20")] = ["wfmt", "strslice"]
 
 
+# ---- rules added for units qdldl_new / kkt_new (additive) ----
+def rule_tupcall(toks, fired):
+    """tupcall:  (X1, .., Xk) = E;   ->   { let (tupcall_0, .., tupcall_{k-1}) = E; X1 = tupcall_0; .. }      (unit qdldl_new: _qdldl_new)
+    for a right-hand side E that is NOT a tuple literal (a call).  Verus does not support destructuring assignment; this is the
+    desugaring given in the Rust reference (destructuring assignment = a `let` with the same pattern, fresh names for the places,
+    followed by the assignments left to right).  A place `_` stays `_` in the pattern and gets no assignment.  Fires only when
+    every place is a plain identifier or `_`; anything else is an ExtractError (never a silent change)."""
+    i = 0
+    while i < len(toks):
+        t = toks[i]
+        if t.kind == "punct" and t.text == "(" and not t.syn:
+            pv = prev_code(toks, i - 1)
+            if pv >= 0 and toks[pv].kind == "punct" and toks[pv].text in (";", "{", "}"):
+                pe = match_close(toks, i)
+                eq = next_code(toks, pe + 1)
+                rp = next_code(toks, eq + 1) if eq < len(toks) else len(toks)
+                if eq < len(toks) and toks[eq].text == "=" and rp < len(toks) and toks[rp].text != "(":
+                    # end of the statement: the next `;` at depth 0
+                    d, semi = 0, None
+                    for q in range(rp, len(toks)):
+                        x = toks[q]
+                        if x.kind == "punct" and x.text in OPEN: d += 1
+                        elif x.kind == "punct" and x.text in CLOSE: d -= 1
+                        elif x.kind == "punct" and x.text == ";" and d == 0:
+                            semi = q
+                            break
+                        if d < 0: break
+                    lhs = split_top_commas(toks, i + 1, pe)
+                    if semi is not None and len(lhs) >= 2:
+                        pats, assigns = [], []
+                        for k, (a, b) in enumerate(lhs):
+                            code = [x for x in toks[a:b] if x.kind not in ("ws", "comment")]
+                            if len(code) != 1 or code[0].kind != "ident":
+                                raise ExtractError("tupcall: left-hand side is not a tuple of plain identifiers / `_`")
+                            if code[0].text == "_":
+                                pats.append("_")
+                            else:
+                                pats.append(f"tupcall_{k}")
+                                assigns.append(f"{code[0].text} = tupcall_{k}; ")
+                        new = synth("{ let (" + ", ".join(pats) + ") = ") + _strip_ws(toks[rp:semi]) + synth("; " + "".join(assigns) + "}")
+                        toks = toks[:i] + new + toks[semi + 1:]
+                        fired["tupcall"] = fired.get("tupcall", 0) + 1
+                        i += len(new)
+                        continue
+        i += 1
+    return toks
+
+
+def rule_R30i(toks, fired):
+    """R30i:  X.iter().sum()  ->  { let mut r30i_s: usize = 0; for r30i_p in X.iter() { r30i_s += *r30i_p; } r30i_s }
+    (unit qdldl_new: `workspace.Lnz.iter().sum()`).  Definition of `impl Sum<&usize> for usize` (core: `iter.fold(0, |a, b| a + b)`
+    with `usize + &usize` = `a + *b`, forward_ref_binop) at type usize; the `+=` turns the no-overflow condition of the sum into a
+    proof obligation (std panics on overflow in a debug build and wraps in a release build: under the obligation both agree).
+    If X's items are not `usize` the emitted text does not type-check (exit 2), it is never silently something else."""
+    n = 0
+    i = 0
+    while i < len(toks):
+        t = toks[i]
+        if t.kind == "ident" and t.text == "sum" and not t.syn and toks[prev_code(toks, i - 1)].text == ".":
+            dot = prev_code(toks, i - 1)
+            p = next_code(toks, i + 1)
+            if toks[p].text == "(" and next_code(toks, p + 1) == match_close(toks, p):
+                q = prev_code(toks, dot - 1)          # `)` of iter()
+                if toks[q].text == ")":
+                    qo = prev_code(toks, q - 1)
+                    it = prev_code(toks, qo - 1)
+                    d0 = prev_code(toks, it - 1)
+                    if toks[qo].text == "(" and toks[it].kind == "ident" and toks[it].text == "iter" and toks[d0].text == ".":
+                        a = _postfix_start(toks, dot)
+                        recv = toks[a:dot]
+                        n += 1
+                        sv, pv = f"r30i_s{n}", f"r30i_p{n}"
+                        new = (synth(f"{{ let mut {sv}: usize = 0; ") + [_for_tok()] + synth(f" {pv} in ") + recv
+                               + synth(f" {{ {sv} += *{pv}; }} {sv} }}"))
+                        toks = toks[:a] + new + toks[match_close(toks, p) + 1:]
+                        fired["R30i"] = fired.get("R30i", 0) + 1
+                        i = a + 1
+                        continue
+        i += 1
+    return toks
+
+
+def rule_fnptr(toks, fired, names):
+    """fnptr:NAME  :  NAME(ARGS)  ->  NAME.call(ARGS)    for a local variable NAME that holds a function pointer (unit kkt_new:
+    `ldl_ctor(&KKT, &dsigns, settings, None)`).  Verus has no function-pointer types; the unit gives the pointer a hand-written
+    stand-in type whose method `call` carries the ASSUMED contract of every function the pointer can hold (listed in the unit
+    header).  Arguments, their order and evaluation are untouched.  A NAME that is never called is an ExtractError."""
+    for nm in names:
+        hits = 0
+        i = 0
+        while i < len(toks):
+            t = toks[i]
+            if t.kind == "ident" and t.text == nm and not t.syn:
+                pv = prev_code(toks, i - 1)
+                nx = next_code(toks, i + 1)
+                if nx < len(toks) and toks[nx].text == "(" and not (pv >= 0 and toks[pv].text in (".", "::", "fn")):
+                    toks = toks[:i + 1] + synth(".call") + toks[i + 1:]
+                    hits += 1
+            i += 1
+        if hits == 0:
+            raise ExtractError(f"lost anchor: fnptr:{nm} is never called")
+        fired["fnptr:" + nm] = hits
+    return toks
+
+
+RULES["tupcall"] = rule_tupcall
+RULES["R30i"] = rule_R30i
+RULE_ORDER[RULE_ORDER.index("R20"):RULE_ORDER.index("R20")] = ["tupcall", "R30i"]
+
+
+# ---- rules added for units chordal_merge / chordal_snode (additive) ----
+def rule_strmatch(toks, fired):
+    """strmatch:  match S { "a" => {A} "b" => {B} _ => {C} }   ->   if str_eq(S, "a") {A} else if str_eq(S, "b") {B} else {C}
+    (unit chordal_merge: the dispatch on the merge-method string in SparsityPattern::new).  A `match` on a `&str` scrutinee with
+    string-literal patterns compares by value, top to bottom, first hit wins, `_` takes the rest: that is the if / else-if chain.
+    Verus accepts the match but gives the literal patterns no meaning (every arm, including the panicking `_` arm, stays reachable
+    whatever is known about S); the unit declares `str_eq` with the ASSUMED contract `r == (a@ == b@)`.  Fires only for: scrutinee a
+    plain identifier (re-evaluating it has no effect), every pattern one string literal or (last) `_`, every arm body a block, the
+    match in statement position; anything else is left untouched."""
+    i = 0
+    while i < len(toks):
+        t = toks[i]
+        if t.kind == "ident" and t.text == "match" and not t.syn:
+            s = next_code(toks, i + 1)
+            bo = next_code(toks, s + 1)
+            pv = prev_code(toks, i - 1)
+            if (toks[s].kind == "ident" and toks[bo].kind == "punct" and toks[bo].text == "{"
+                    and (pv < 0 or (toks[pv].kind == "punct" and toks[pv].text in (";", "{", "}")))):
+                bc = match_close(toks, bo)
+                arms, ok, q = [], True, next_code(toks, bo + 1)
+                while q < bc:
+                    pat = toks[q]
+                    ar = next_code(toks, q + 1)
+                    ab = next_code(toks, ar + 1)
+                    if not ((pat.kind == "str" or (pat.kind == "ident" and pat.text == "_")) and toks[ar].text == "=>" and toks[ab].text == "{"):
+                        ok = False
+                        break
+                    ae = match_close(toks, ab)
+                    arms.append((pat, ab, ae))
+                    q = next_code(toks, ae + 1)
+                    if q < bc and toks[q].text == ",":
+                        q = next_code(toks, q + 1)
+                ok = ok and len(arms) >= 2 and arms[-1][0].kind == "ident" and all(a[0].kind == "str" for a in arms[:-1])
+                if ok:
+                    new = []
+                    for k, (pat, ab, ae) in enumerate(arms):
+                        if pat.kind == "str":
+                            new += synth(("" if k == 0 else " else ") + "if str_eq(" + toks[s].text + ", ") + [pat] + synth(") ") + toks[ab:ae + 1]
+                        else:
+                            new += synth(" else ") + toks[ab:ae + 1]
+                    toks = toks[:i] + new + toks[bc + 1:]
+                    fired["strmatch"] = fired.get("strmatch", 0) + 1
+                    i += len(new)
+                    continue
+        i += 1
+    return toks
+
+
+def rule_extset(toks, fired):
+    """extset:  V.extend(S.iter())  ->  V.extend_from_slice(S.iter())     (unit chordal_snode: `stack.extend(children[v].iter())`)
+    for an indexmap::IndexSet<usize> S whose hand-written stand-in hands its members out as the slice `S.iter()` (insertion order).
+    `impl Extend<&T> for Vec<T> where T: Copy` appends a copy of every yielded element in iteration order, which for the member
+    slice is `extend_from_slice` (specified by vstd); the generic `Extend::extend` has no Verus specification."""
+    i = 0
+    while i < len(toks):
+        t = toks[i]
+        if t.kind == "ident" and t.text == "extend" and not t.syn and toks[prev_code(toks, i - 1)].text == ".":
+            p = next_code(toks, i + 1)
+            if toks[p].text == "(":
+                pe = match_close(toks, p)
+                last = prev_code(toks, pe - 1)
+                lo = prev_code(toks, last - 1)
+                it = prev_code(toks, lo - 1)
+                d = prev_code(toks, it - 1)
+                if toks[last].text == ")" and toks[lo].text == "(" and toks[it].kind == "ident" and toks[it].text == "iter" and toks[d].text == ".":
+                    t.text = "extend_from_slice"
+                    fired["extset"] = fired.get("extset", 0) + 1
+        i += 1
+    return toks
+
+
+def rule_setmin(toks, fired):
+    """setmin:  S.iter().min()  ->  usize_slice_min(S.iter())     (unit chordal_snode: `*sn.iter().min().unwrap()` in find_separators)
+    The unit declares the helper with the ASSUMED documented meaning of Iterator::min over &usize: None for an empty iterator, else a
+    reference to a smallest element.  The `.unwrap()` that follows stays in the text, so "the set is not empty" is a proof obligation."""
+    i = 0
+    while i < len(toks):
+        t = toks[i]
+        if t.kind == "ident" and t.text == "min" and not t.syn and toks[prev_code(toks, i - 1)].text == ".":
+            d_min = prev_code(toks, i - 1)
+            p1 = next_code(toks, i + 1)
+            q = prev_code(toks, d_min - 1)
+            if toks[p1].text == "(" and next_code(toks, p1 + 1) == match_close(toks, p1) and toks[q].text == ")":
+                qo = prev_code(toks, q - 1)
+                it = prev_code(toks, qo - 1)
+                d_it = prev_code(toks, it - 1)
+                if toks[qo].text == "(" and toks[it].kind == "ident" and toks[it].text == "iter" and toks[d_it].text == ".":
+                    a = _postfix_start(toks, d_it)
+                    new = synth("usize_slice_min(") + toks[a:q + 1] + synth(")")
+                    toks = toks[:a] + new + toks[match_close(toks, p1) + 1:]
+                    fired["setmin"] = fired.get("setmin", 0) + 1
+                    i = a + 1
+                    continue
+        i += 1
+    return toks
+
+
+RULES["strmatch"] = rule_strmatch
+RULES["extset"] = rule_extset
+RULES["setmin"] = rule_setmin
+RULE_ORDER[RULE_ORDER.index("R20"):RULE_ORDER.index("R20")] = ["strmatch", "extset", "setmin"]
+
+
 def apply_rules(toks, rules, fired):
     for r in RULE_ORDER:
         if r in rules:
@@ -2451,6 +2720,8 @@ def apply_rules(toks, rules, fired):
             toks = rule_R1(toks, fired, a, b)
         elif r.startswith("setiter:"):
             toks = rule_setiter(toks, fired, [b for b in r[8:].split("|") if b])
+        elif r.startswith("fnptr:"):
+            toks = rule_fnptr(toks, fired, [b for b in r[6:].split("|") if b])
         elif r not in RULES:
             raise ExtractError(f"unknown rule {r}")
     return toks
@@ -2608,7 +2879,7 @@ def merge_fn(toks, opts, sections, fired):
     want_n = sections.get("nloops")
     maxk = 0
     for key in sections:
-        m = re.fullmatch(r"(loop|before_loop|body_start|body_end|iter) (\d+)", key)
+        m = re.fullmatch(r"(loop|before_loop|after_loop|body_start|body_end|iter) (\d+)", key)
         if m:
             maxk = max(maxk, int(m.group(2)))
     if want_n is not None and int(want_n) != len(lps):
@@ -2616,7 +2887,7 @@ def merge_fn(toks, opts, sections, fired):
     if maxk > len(lps):
         raise ExtractError(f"lost anchor: annotation for loop {maxk} but function has {len(lps)} loops")
     for key, text in sections.items():
-        m = re.fullmatch(r"(loop|before_loop|body_start|body_end|iter) (\d+)", key)
+        m = re.fullmatch(r"(loop|before_loop|after_loop|body_start|body_end|iter) (\d+)", key)
         if m:
             kind, k = m.group(1), int(m.group(2))
             li = lps[k - 1]
@@ -2640,12 +2911,15 @@ def merge_fn(toks, opts, sections, fired):
                 if toks[p].text == ":" and toks[prev_code(toks, p - 1)].kind == "lifetime":
                     tgt = prev_code(toks, p - 1)
                 add(tgt, bracket(text + "\n"))
+            elif kind == "after_loop":
+                # (additive, unit nonsym_cones) ghost text right after the closing brace of loop k
+                add(match_close(toks, bo) + 1, bracket("\n" + text + "\n"))
             elif kind == "body_start":
                 add(bo + 1, bracket("\n" + text + "\n"))
             elif kind == "body_end":
                 add(match_close(toks, bo), bracket("\n" + text + "\n"))
         m = re.fullmatch(r'(before|after) (.+)', key)
-        if m and m.group(1) in ("before", "after") and not re.fullmatch(r"(before_loop) \d+", key):
+        if m and m.group(1) in ("before", "after") and not re.fullmatch(r"(before_loop|after_loop) \d+", key):
             needle = m.group(2).strip()
             nth = None
             mo = re.fullmatch(r'(".*")\s*#(\d+)', needle)     # "code" #k : the k-th occurrence (1-based)
